@@ -381,7 +381,7 @@ def write_bytecode_file(
     if isinstance(code_obj, types.CodeType):
         fp.write(marshal.dumps(code_obj))
     else:
-        fp.write(xdis.marsh.dumps(code_obj))
+        fp.write(xdis.marsh.dumps(code_obj, python_version=version))
     fp.close()
 
 
